@@ -11,15 +11,19 @@
      fx_leg    the step length stays a [B] vector ([..., None] before torch.where), so a row adds its own leg (as is:
                torch.where([B,1], 0, [B]) is a BxB matrix whose column 0 scatter_add_ uses: ROW 0's leg);
      fx_ret    _get_reward adds the leg from the current node to the current depot (as is: the return of the last
-               vehicle is only ever added if the finished row is stepped once more). *)
+               vehicle is only ever added if the finished row is stepped once more);
+     fx_sq     reward_mode "lateness_square" is computed (lateness with squared terms; as is: its branch sat under
+               == "lateness" and the mode raised NotImplementedError).
+   All five were applied to /repo on 2026-10-01 (commits 443a2ba, ca045f5, ad2c92d, 4acebdc, 3428867): the running code
+   is [repaired]; [as_is] is kept as the record of the old behaviour (Env/MDCPDPRefuted.v). *)
 From Coq Require Import ZArith List Bool Lia ZifyBool Arith.
 From RL4CO Require Import Base.Num Base.EnvSig.
 Import ListNotations.
 Open Scope Z_scope.
 
-Record mdfix := { fx_nd : bool; fx_switch : bool; fx_leg : bool; fx_ret : bool }.
-Definition as_is : mdfix := {| fx_nd := false; fx_switch := false; fx_leg := false; fx_ret := false |}.
-Definition repaired : mdfix := {| fx_nd := true; fx_switch := true; fx_leg := true; fx_ret := true |}.
+Record mdfix := { fx_nd : bool; fx_switch : bool; fx_leg : bool; fx_ret : bool; fx_sq : bool }.
+Definition as_is : mdfix := {| fx_nd := false; fx_switch := false; fx_leg := false; fx_ret := false; fx_sq := false |}.
+Definition repaired : mdfix := {| fx_nd := true; fx_switch := true; fx_leg := true; fx_ret := true; fx_sq := true |}.
 
 Record md_inst := {
   ndep : nat;              (* generator.num_depot = rows of td["depot"] *)
@@ -121,7 +125,7 @@ Section Model.
     inst := md_inst; st := md_st;
     reset := md_reset; step := md_step; stepok := md_stepok; mask := md_mask; done := md_done |}.
 
-  (* _get_reward on the final state, in units of [one]; None = raises NotImplementedError *)
+  (* _get_reward on the final state, in units of [one] (mode 3: [one]^2, see Spec/MultiDepotPD.v); None = raises NotImplementedError *)
   Definition final_lens (i : md_inst) (s : md_st) : list Z :=
     if fx_ret F && negb (opn i) && negb (Nat.ltb (node s) (nd i))
     then set_nth (depot s) (rnd A (nth (depot s) (lens s) 0 + mget (dist i) (node s) (depot s))) (lens s)
@@ -133,6 +137,10 @@ Section Model.
     | O => Some (- (one i * sumZ ls))
     | S O => Some (- (one i * maxl ls))
     | S (S O) => Some (- ((one i - lw i) * sumZ ls + lw i * sumZ (skipn (split i) (arr s))))
+    | S (S (S O)) =>
+        if fx_sq F
+        then Some (- (one i * (one i - lw i) * sumZ ls + lw i * sumZ (map (fun t => t * t) (skipn (split i) (arr s)))))
+        else None
     | _ => None
     end.
 End Model.
